@@ -176,7 +176,13 @@ def scn_wire(params):
         k = sim.k
         mode = params["reply"]          # good | dns-hash | plus1 | bitflip
 
+        nraw = [0]
+
         def hook(step, q, default, src):
+            if step == "RAW" and default is not None:
+                nraw[0] += 1
+                if nraw[0] <= params.get("drop_raw", 0):
+                    return None          # lost on the way: the client has to retransmit its raw login
             if step != "RAW" or default is None or mode == "good":
                 return default
             if mode == "dns-hash":
@@ -215,8 +221,12 @@ def scn_wire(params):
             out["stats"]["wire_raw_logins"] += 1
             out["evaluations"] += 1
             want = oracle(pw, ch + 1)
-            if rawlog[0][4:20] != want:
-                out["violations"].append(("C19:wire:raw-login-digest", "raw login carries %s, documented response for challenge+1 is %s" % (rawlog[0][4:20].hex(), want.hex()), wit))
+            for n_, rl in enumerate(rawlog):
+                if rl[4:20] != want:
+                    out["violations"].append(("C19:wire:raw-login-digest", "raw login #%d carries %s, documented response for challenge+1 is %s"
+                                              % (n_ + 1, rl[4:20].hex(), want.hex()), wit))
+                    break
+            out["stats"]["wire_raw_login_datagrams"] = len(rawlog)
             # did the client accept the server's reply?  after acceptance it never does the DNS-mode negotiation steps
             steps_after = [s for s, _t in hs.steps]
             went_raw = not any(s in ("Z", "S", "O", "R", "N") for s in steps_after) and any(len(d) >= 4 and (d[3] & 0xF0) in (proto.RAW_PING, proto.RAW_DATA) for d in hs.raw_seen)
@@ -255,7 +265,7 @@ def wire_params(ctx, rng):
             pw = bytes(rng.randint(1, 255) for _ in range(ln))
         plist.append({"idx": i, "seed": ctx.seed * 100000 + i, "password_hex": pw.hex(),
                       "challenge": rng.choice(BOUNDARY_SEEDS + [rng.getrandbits(32)] * 6), "userid": rng.choice([0, 3, 15]),
-                      "raw": i % 2 == 0, "reply": rng.choice(["good", "good", "dns-hash", "plus1", "bitflip"]), "flip": rng.randrange(128),
+                      "raw": i % 2 == 0, "drop_raw": rng.choice([0, 0, 1, 2, 3]), "reply": rng.choice(["good", "good", "dns-hash", "plus1", "bitflip"]), "flip": rng.randrange(128),
                       "qtype": rng.choice(["NULL", "TXT", "CNAME", "MX"])})
     return plist
 
